@@ -353,6 +353,17 @@ def wrap_t(stmts, rng, extra=None, uses_ret=None, gvals=None, lvals=None):
     return std_program(body, procs, gvals=gvals, strings={'$s0': list(b'hey')})
 
 
+def check_xgen(comp):
+    """the TLA+ definition of the enumerated space (spec/XGen.tla) and the tables here must name the same things"""
+    import vlib
+    mine = {'intleaf': {n for n, _ in int_leaves()}, 'boolleaf': {n for n, _ in bool_leaves()}, 'arith': set(ARITH), 'rel': set(REL), 'logic': {'and', 'or'},
+            'intctx': {c for c in contexts() if c not in ('lsub', 'rsub')}, 'boolctx': set(bool_contexts()),
+            'constleaf': {n for n in CONST_LEAVES if n in {x for x, _ in int_leaves()} and 'val' not in n}}
+    for k, v in mine.items():
+        if set(comp[k]) != v:
+            raise vlib.MachineryError("spec/XGen.tla and lib/xlib.py disagree on %s: %s" % (k, sorted(set(comp[k]) ^ v)))
+
+
 def opctx_programs(rng, sample=None):
     """(id, program) for every binary/unary operator over pairs of leaf kinds in every context; `sample` keeps a
     seeded fraction of the leaf pairs (the leaf x leaf x op x context product is ~100k programs)"""
